@@ -111,11 +111,14 @@ fn shape_to_geo(case: &str, ty: i32, i: usize, ctx: &Ctx, rep: &mut Report) {
                 } else {
                     // exact pool or the tiny integer grid (collinear and repeated points are common there)
                     let c = Cfg { pool: if i % 4 == 3 { Pool::Grid } else { Pool::Exact }, ..Cfg::plain(1, 6) };
-                    (0..r.usize_in(1, 6)).map(|_| (gen::coord(&mut r, &c, false), gen::coord(&mut r, &c, false))).collect()
+                    let ml = if i % 10 == 7 { 60 } else { 6 };
+                    (0..r.usize_in(1, ml)).map(|_| (gen::coord(&mut r, &c, false), gen::coord(&mut r, &c, false))).collect()
                 };
                 let kind = if ty == 31 {
                     if h == 0 {
-                        if gi == 0 && r.chance(0.5) { 4 } else { 2 }
+                        // FirstRing or OuterRing opens a group, whichever group it is
+                        let _ = gi;
+                        if r.chance(0.5) { 4 } else { 2 }
                     } else if r.chance(0.5) {
                         3
                     } else {
@@ -137,7 +140,9 @@ fn shape_to_geo(case: &str, ty: i32, i: usize, ctx: &Ctx, rep: &mut Report) {
     } else {
         // every third case on the tiny integer grid: consecutive vertices sharing X and Y, repeated
         // points and zero-length segments are the rule there
-        let c = if i % 3 == 1 { Cfg { pool: Pool::Grid, ..Cfg::hostile(0.0, 4, 6) } } else { Cfg::hostile(0.2, 4, 6) };
+        // every 10th case: components of up to 120 vertices
+        let ml = if i % 10 == 7 { 120 } else { 6 };
+        let c = if i % 3 == 1 { Cfg { pool: Pool::Grid, ..Cfg::hostile(0.0, 4, ml) } } else { Cfg::hostile(0.2, 4, ml) };
         (gen::shape(ty, &mut r, &c), true)
     };
     let d = shape.d();
@@ -247,7 +252,9 @@ fn gen_geo_polygon(r: &mut Rng, star: bool) -> g::Polygon<f64> {
 fn geo_to_shape(case: &str, variant: usize, i: usize, ctx: &Ctx, rep: &mut Report) {
     let mut r = Rng::derive(ctx.seed, &[tag("c20-g2s"), variant as u64, i as u64]);
     let c = Cfg::hostile(0.15, 4, 6);
-    let c = Cfg { nan_zm: false, ..c };
+    // every third case on the tiny integer grid: consecutive identical coordinates are the rule there
+    let c = if i % 3 == 1 { Cfg { pool: Pool::Grid, nan_zm: false, ..Cfg::hostile(0.0, 4, 6) } } else { Cfg { nan_zm: false, ..c } };
+    let ml = if i % 10 == 7 { 90 } else { 8 };
     let names = ["Point", "Line", "LineString", "MultiLineString", "Polygon", "MultiPolygon", "MultiPoint"];
     let name = names[variant];
     rep.eval();
@@ -255,11 +262,11 @@ fn geo_to_shape(case: &str, variant: usize, i: usize, ctx: &Ctx, rep: &mut Repor
     let geom: g::Geometry<f64> = match variant {
         0 => g::Geometry::Point(g::Point(coord_of(&mut r, &c))),
         1 => g::Geometry::Line(g::Line::new(coord_of(&mut r, &c), coord_of(&mut r, &c))),
-        2 => g::Geometry::LineString(g::LineString((0..r.usize_in(2, 8)).map(|_| coord_of(&mut r, &c)).collect())),
-        3 => g::Geometry::MultiLineString(g::MultiLineString((0..r.usize_in(1, 4)).map(|_| g::LineString((0..r.usize_in(2, 6)).map(|_| coord_of(&mut r, &c)).collect())).collect())),
+        2 => g::Geometry::LineString(g::LineString((0..r.usize_in(2, ml)).map(|_| coord_of(&mut r, &c)).collect())),
+        3 => g::Geometry::MultiLineString(g::MultiLineString((0..r.usize_in(1, 4)).map(|_| g::LineString((0..r.usize_in(2, ml)).map(|_| coord_of(&mut r, &c)).collect())).collect())),
         4 => g::Geometry::Polygon(gen_geo_polygon(&mut r, i % 2 == 0)),
         5 => g::Geometry::MultiPolygon(g::MultiPolygon((0..r.usize_in(1, 3)).map(|_| gen_geo_polygon(&mut r, i % 2 == 0)).collect())),
-        _ => g::Geometry::MultiPoint(g::MultiPoint((0..r.usize_in(1, 8)).map(|_| g::Point(coord_of(&mut r, &c))).collect())),
+        _ => g::Geometry::MultiPoint(g::MultiPoint((0..r.usize_in(1, ml)).map(|_| g::Point(coord_of(&mut r, &c))).collect())),
     };
     // the model: the corresponding multi-geometry as (groups of) coordinate lists
     #[derive(PartialEq, Debug)]
@@ -368,6 +375,10 @@ fn refusals(rep: &mut Report, ctx: &Ctx) {
         ("Multipatch(TriangleFan)", Shape::Multipatch(Multipatch::new(Patch::TriangleFan(tri.clone())))),
         ("Multipatch(OuterRing,TriangleStrip)", Shape::Multipatch(Multipatch::with_parts(vec![Patch::OuterRing(tri.clone()), Patch::TriangleStrip(tri.clone())]))),
         ("Multipatch(FirstRing,Ring,TriangleFan)", Shape::Multipatch(Multipatch::with_parts(vec![Patch::FirstRing(tri.clone()), Patch::Ring(tri.clone()), Patch::TriangleFan(tri.clone())]))),
+        ("Multipatch(OuterRing,OuterRing,TriangleStrip)", Shape::Multipatch(Multipatch::with_parts(vec![Patch::OuterRing(tri.clone()), Patch::OuterRing(tri.clone()), Patch::TriangleStrip(tri.clone())]))),
+        ("Multipatch(OuterRing,InnerRing,OuterRing,InnerRing,TriangleFan)", Shape::Multipatch(Multipatch::with_parts(vec![Patch::OuterRing(tri.clone()), Patch::InnerRing(tri.clone()), Patch::OuterRing(tri.clone()), Patch::InnerRing(tri.clone()), Patch::TriangleFan(tri.clone())]))),
+        ("Multipatch(TriangleStrip,OuterRing)", Shape::Multipatch(Multipatch::with_parts(vec![Patch::TriangleStrip(tri.clone()), Patch::OuterRing(tri.clone())]))),
+        ("Multipatch(OuterRing,TriangleFan,OuterRing,OuterRing)", Shape::Multipatch(Multipatch::with_parts(vec![Patch::OuterRing(tri.clone()), Patch::TriangleFan(tri.clone()), Patch::OuterRing(tri.clone()), Patch::OuterRing(tri.clone())]))),
     ];
     for (name, s) in shapes {
         let case = format!("c20:refusal:{}", name);
@@ -387,6 +398,17 @@ fn refusals(rep: &mut Report, ctx: &Ctx) {
     let geoms: Vec<(&str, g::Geometry<f64>)> = vec![
         ("GeometryCollection(empty)", g::Geometry::GeometryCollection(g::GeometryCollection(vec![]))),
         ("GeometryCollection(point)", g::Geometry::GeometryCollection(g::GeometryCollection(vec![g::Geometry::Point(g::Point(c(1.0, 2.0)))]))),
+        ("GeometryCollection(polygon)", g::Geometry::GeometryCollection(g::GeometryCollection(vec![g::Geometry::Polygon(g::Polygon::new(g::LineString(vec![c(0.0, 0.0), c(0.0, 1.0), c(1.0, 1.0), c(0.0, 0.0)]), vec![]))]))),
+        (
+            "GeometryCollection(polygon,polygon)",
+            g::Geometry::GeometryCollection(g::GeometryCollection(vec![
+                g::Geometry::Polygon(g::Polygon::new(g::LineString(vec![c(0.0, 0.0), c(0.0, 1.0), c(1.0, 1.0), c(0.0, 0.0)]), vec![])),
+                g::Geometry::Polygon(g::Polygon::new(g::LineString(vec![c(5.0, 5.0), c(5.0, 6.0), c(6.0, 6.0), c(5.0, 5.0)]), vec![])),
+            ])),
+        ),
+        ("GeometryCollection(linestring)", g::Geometry::GeometryCollection(g::GeometryCollection(vec![g::Geometry::LineString(g::LineString(vec![c(0.0, 0.0), c(1.0, 1.0)]))]))),
+        ("GeometryCollection(multipoint,multipoint)", g::Geometry::GeometryCollection(g::GeometryCollection(vec![g::Geometry::MultiPoint(g::MultiPoint(vec![g::Point(c(1.0, 2.0))])), g::Geometry::MultiPoint(g::MultiPoint(vec![g::Point(c(3.0, 4.0))]))]))),
+        ("GeometryCollection(GeometryCollection(point))", g::Geometry::GeometryCollection(g::GeometryCollection(vec![g::Geometry::GeometryCollection(g::GeometryCollection(vec![g::Geometry::Point(g::Point(c(1.0, 2.0)))]))]))),
         ("Rect", g::Geometry::Rect(g::Rect::new(c(0.0, 0.0), c(1.0, 1.0)))),
         ("Triangle", g::Geometry::Triangle(g::Triangle::new(c(0.0, 0.0), c(1.0, 1.0), c(1.0, 0.0)))),
     ];
@@ -487,23 +509,29 @@ fn traits_view(case: &str, i: usize, ctx: &Ctx, rep: &mut Report) {
     check_coord(&&pm, [x, y, 0.0, m], "&PointM as CoordTrait", "PointM", case, rep);
     check_coord(&pz, [x, y, z, m], "PointZ as CoordTrait", "PointZ", case, rep);
     check_coord(&&pz, [x, y, z, m], "&PointZ as CoordTrait", "PointZ", case, rep);
-    if let Some(c) = PointTrait::coord(&pm) {
-        check_coord(&c, [x, y, 0.0, m], "PointTrait::coord(PointM)", "PointM", case, rep);
+    match PointTrait::coord(&pm) {
+        Some(c) => check_coord(&c, [x, y, 0.0, m], "PointTrait::coord(PointM)", "PointM", case, rep),
+        None => rep.violation(&format!("traits/{}/coord-is-None", "PointM"), case, J::s(format!("{}: PointTrait::coord() returned None, so none of the reported dimensions can be read back", "PointTrait::coord(PointM)"))),
     }
-    if let Some(c) = PointTrait::coord(&pz) {
-        check_coord(&c, [x, y, z, m], "PointTrait::coord(PointZ)", "PointZ", case, rep);
+    match PointTrait::coord(&pz) {
+        Some(c) => check_coord(&c, [x, y, z, m], "PointTrait::coord(PointZ)", "PointZ", case, rep),
+        None => rep.violation(&format!("traits/{}/coord-is-None", "PointZ"), case, J::s(format!("{}: PointTrait::coord() returned None, so none of the reported dimensions can be read back", "PointTrait::coord(PointZ)"))),
     }
-    if let Some(c) = PointTrait::coord(&p2) {
-        check_coord(&c, [x, y, 0.0, 0.0], "PointTrait::coord(Point)", "Point", case, rep);
+    match PointTrait::coord(&p2) {
+        Some(c) => check_coord(&c, [x, y, 0.0, 0.0], "PointTrait::coord(Point)", "Point", case, rep),
+        None => rep.violation(&format!("traits/{}/coord-is-None", "Point"), case, J::s(format!("{}: PointTrait::coord() returned None, so none of the reported dimensions can be read back", "PointTrait::coord(Point)"))),
     }
-    if let Some(c) = PointTrait::coord(&&p2) {
-        check_coord(&c, [x, y, 0.0, 0.0], "PointTrait::coord(&Point)", "Point", case, rep);
+    match PointTrait::coord(&&p2) {
+        Some(c) => check_coord(&c, [x, y, 0.0, 0.0], "PointTrait::coord(&Point)", "Point", case, rep),
+        None => rep.violation(&format!("traits/{}/coord-is-None", "Point"), case, J::s(format!("{}: PointTrait::coord() returned None, so none of the reported dimensions can be read back", "PointTrait::coord(&Point)"))),
     }
-    if let Some(c) = PointTrait::coord(&&pm) {
-        check_coord(&c, [x, y, 0.0, m], "PointTrait::coord(&PointM)", "PointM", case, rep);
+    match PointTrait::coord(&&pm) {
+        Some(c) => check_coord(&c, [x, y, 0.0, m], "PointTrait::coord(&PointM)", "PointM", case, rep),
+        None => rep.violation(&format!("traits/{}/coord-is-None", "PointM"), case, J::s(format!("{}: PointTrait::coord() returned None, so none of the reported dimensions can be read back", "PointTrait::coord(&PointM)"))),
     }
-    if let Some(c) = PointTrait::coord(&&pz) {
-        check_coord(&c, [x, y, z, m], "PointTrait::coord(&PointZ)", "PointZ", case, rep);
+    match PointTrait::coord(&&pz) {
+        Some(c) => check_coord(&c, [x, y, z, m], "PointTrait::coord(&PointZ)", "PointZ", case, rep),
+        None => rep.violation(&format!("traits/{}/coord-is-None", "PointZ"), case, J::s(format!("{}: PointTrait::coord() returned None, so none of the reported dimensions can be read back", "PointTrait::coord(&PointZ)"))),
     }
     // the dimension count a POINT reports (PointTrait::dim): every index below it can be read
     // from the point's coordinate and is the matching field
@@ -545,14 +573,16 @@ fn traits_view(case: &str, i: usize, ctx: &Ctx, rep: &mut Report) {
     let other = PointZ::new(y, x, m, z);
     let mpz = MultipointZ::new(vec![other, pz]);
     if let Some(p) = MultiPointTrait::point(&mpz, 1) {
-        if let Some(c) = PointTrait::coord(&p) {
-            check_coord(&c, [x, y, z, m], "MultipointZ.point(1).coord()", "PointZ", case, rep);
+        match PointTrait::coord(&p) {
+            Some(c) => check_coord(&c, [x, y, z, m], "MultipointZ.point(1).coord()", "PointZ", case, rep),
+            None => rep.violation(&format!("traits/{}/coord-is-None", "PointZ"), case, J::s(format!("{}: PointTrait::coord() returned None, so none of the reported dimensions can be read back", "MultipointZ.point(1).coord()"))),
         }
     }
     let mpm = MultipointM::new(vec![pm, PointM::new(y, x, 2.0)]);
     if let Some(p) = MultiPointTrait::point(&mpm, 0) {
-        if let Some(c) = PointTrait::coord(&p) {
-            check_coord(&c, [x, y, 0.0, m], "MultipointM.point(0).coord()", "PointM", case, rep);
+        match PointTrait::coord(&p) {
+            Some(c) => check_coord(&c, [x, y, 0.0, m], "MultipointM.point(0).coord()", "PointM", case, rep),
+            None => rep.violation(&format!("traits/{}/coord-is-None", "PointM"), case, J::s(format!("{}: PointTrait::coord() returned None, so none of the reported dimensions can be read back", "MultipointM.point(0).coord()"))),
         }
     }
     let mp2 = Multipoint::new(vec![Point::new(y, x), p2]);
@@ -561,8 +591,9 @@ fn traits_view(case: &str, i: usize, ctx: &Ctx, rep: &mut Report) {
     } else if MultiPointTrait::num_points(&mp2) == 2 {
         // SAFETY: 1 < num_points()
         let p = unsafe { MultiPointTrait::point_unchecked(&mp2, 1) };
-        if let Some(c) = PointTrait::coord(&p) {
-            check_coord(&c, [x, y, 0.0, 0.0], "Multipoint.point_unchecked(1).coord()", "Point", case, rep);
+        match PointTrait::coord(&p) {
+            Some(c) => check_coord(&c, [x, y, 0.0, 0.0], "Multipoint.point_unchecked(1).coord()", "Point", case, rep),
+            None => rep.violation(&format!("traits/{}/coord-is-None", "Point"), case, J::s(format!("{}: PointTrait::coord() returned None, so none of the reported dimensions can be read back", "Multipoint.point_unchecked(1).coord()"))),
         }
     } else {
         rep.violation("traits/Multipoint/num_points", case, J::s("num_points() differs from the number of points"));
@@ -571,12 +602,14 @@ fn traits_view(case: &str, i: usize, ctx: &Ctx, rep: &mut Report) {
     } else if MultiPointTrait::num_points(&mpz) == 2 && MultiPointTrait::num_points(&mpm) == 2 {
         // SAFETY: indices below num_points()
         let p = unsafe { MultiPointTrait::point_unchecked(&mpz, 1) };
-        if let Some(c) = PointTrait::coord(&p) {
-            check_coord(&c, [x, y, z, m], "MultipointZ.point_unchecked(1).coord()", "PointZ", case, rep);
+        match PointTrait::coord(&p) {
+            Some(c) => check_coord(&c, [x, y, z, m], "MultipointZ.point_unchecked(1).coord()", "PointZ", case, rep),
+            None => rep.violation(&format!("traits/{}/coord-is-None", "PointZ"), case, J::s(format!("{}: PointTrait::coord() returned None, so none of the reported dimensions can be read back", "MultipointZ.point_unchecked(1).coord()"))),
         }
         let p = unsafe { MultiPointTrait::point_unchecked(&mpm, 0) };
-        if let Some(c) = PointTrait::coord(&p) {
-            check_coord(&c, [x, y, 0.0, m], "MultipointM.point_unchecked(0).coord()", "PointM", case, rep);
+        match PointTrait::coord(&p) {
+            Some(c) => check_coord(&c, [x, y, 0.0, m], "MultipointM.point_unchecked(0).coord()", "PointM", case, rep),
+            None => rep.violation(&format!("traits/{}/coord-is-None", "PointM"), case, J::s(format!("{}: PointTrait::coord() returned None, so none of the reported dimensions can be read back", "MultipointM.point_unchecked(0).coord()"))),
         }
     } else {
         rep.violation("traits/MultipointZ/num_points", case, J::s("num_points() differs from the number of points"));
@@ -598,16 +631,56 @@ fn traits_view(case: &str, i: usize, ctx: &Ctx, rep: &mut Report) {
             }
         }
     }
-    let plm = PolylineM::new(vec![pm, PointM::new(y, x, 3.0)]);
-    if let Some(ls) = MultiLineStringTrait::line_string(&plm, 0) {
-        if let Some(c) = ls.coord(0) {
-            check_coord(&c, [x, y, 0.0, m], "PolylineM.line_string(0).coord(0)", "PointM", case, rep);
+    // every index of every line string / multi point view (2-D and M flavours as well)
+    let plm = PolylineM::with_parts(vec![vec![pm, PointM::new(y, x, 3.0), PointM::new(x + 1.0, y, 4.0)], vec![PointM::new(y, x, 5.0), pm]]);
+    let want_m = [vec![[x, y, 0.0, m], [y, x, 0.0, 3.0], [x + 1.0, y, 0.0, 4.0]], vec![[y, x, 0.0, 5.0], [x, y, 0.0, m]]];
+    if MultiLineStringTrait::num_line_strings(&plm) != 2 {
+        rep.violation("traits/PolylineM/num_line_strings", case, J::s("num_line_strings() differs from the number of parts"));
+    }
+    for (li, want) in want_m.iter().enumerate() {
+        match MultiLineStringTrait::line_string(&plm, li) {
+            None => rep.violation("traits/PolylineM/line_string-is-None", case, J::UInt(li as u64)),
+            Some(ls) => {
+                if ls.num_coords() != want.len() {
+                    rep.violation("traits/PolylineM/num_coords", case, J::UInt(li as u64));
+                }
+                for (ci, w) in want.iter().enumerate() {
+                    match ls.coord(ci) {
+                        Some(c) => check_coord(&c, *w, "PolylineM.line_string(i).coord(j)", "PointM", case, rep),
+                        None => rep.violation("traits/PolylineM/coord-is-None", case, J::UInt(ci as u64)),
+                    }
+                }
+            }
         }
     }
-    let pl = Polyline::new(vec![p2, Point::new(y, x)]);
-    if let Some(ls) = MultiLineStringTrait::line_string(&pl, 0) {
-        if let Some(c) = ls.coord(0) {
-            check_coord(&c, [x, y, 0.0, 0.0], "Polyline.line_string(0).coord(0)", "Point", case, rep);
+    let pl = Polyline::with_parts(vec![vec![p2, Point::new(y, x), Point::new(x + 1.0, y)], vec![Point::new(y, x + 2.0), p2]]);
+    let want_2 = [vec![[x, y, 0.0, 0.0], [y, x, 0.0, 0.0], [x + 1.0, y, 0.0, 0.0]], vec![[y, x + 2.0, 0.0, 0.0], [x, y, 0.0, 0.0]]];
+    for (li, want) in want_2.iter().enumerate() {
+        match MultiLineStringTrait::line_string(&pl, li) {
+            None => rep.violation("traits/Polyline/line_string-is-None", case, J::UInt(li as u64)),
+            Some(ls) => {
+                if ls.num_coords() != want.len() {
+                    rep.violation("traits/Polyline/num_coords", case, J::UInt(li as u64));
+                }
+                for (ci, w) in want.iter().enumerate() {
+                    match ls.coord(ci) {
+                        Some(c) => check_coord(&c, *w, "Polyline.line_string(i).coord(j)", "Point", case, rep),
+                        None => rep.violation("traits/Polyline/coord-is-None", case, J::UInt(ci as u64)),
+                    }
+                }
+            }
+        }
+    }
+    for (pi, w) in [[y, x, 0.0, 0.0], [x, y, 0.0, 0.0]].iter().enumerate() {
+        match MultiPointTrait::point(&mp2, pi).and_then(|p| PointTrait::coord(&p).map(|c| (c.x(), c.y()))) {
+            Some((gx, gy)) if gx.to_bits() == w[0].to_bits() && gy.to_bits() == w[1].to_bits() => {}
+            _ => rep.violation("traits/Multipoint/point(i)", case, J::UInt(pi as u64)),
+        }
+    }
+    for (pi, w) in [[x, y, 0.0, m], [y, x, 0.0, 2.0]].iter().enumerate() {
+        match MultiPointTrait::point(&mpm, pi).and_then(|p| PointTrait::coord(&p).map(|c| (c.x(), c.y(), c.nth(2)))) {
+            Some((gx, gy, _)) if gx.to_bits() == w[0].to_bits() && gy.to_bits() == w[1].to_bits() => {}
+            _ => rep.violation("traits/MultipointM/point(i)", case, J::UInt(pi as u64)),
         }
     }
 }
@@ -687,7 +760,7 @@ pub fn run(ctx: &Ctx) -> Report {
     }
     refusals(&mut rep, ctx);
     if ctx.only.is_none() {
-        for (k, req) in [("shape_to_geo_compared", 13 * n as u64 / 2), ("shape_geo_shape_round_trips", n as u64), ("geo_shape_geo_round_trips", n as u64), ("trait_indices_read", n as u64), ("refusals_observed", 9)] {
+        for (k, req) in [("shape_to_geo_compared", 13 * n as u64 / 2), ("shape_geo_shape_round_trips", n as u64), ("geo_shape_geo_round_trips", n as u64), ("trait_indices_read", n as u64), ("refusals_observed", 18)] {
             let v = rep.counters.get(k).copied().unwrap_or(0);
             rep.guard(k, v, req);
         }
